@@ -32,8 +32,9 @@ def main():
     try:
         env = dict(os.environ, PYTHONPATH=wt)
         env.pop("VERIF_REPO", None)
-        shutil.copy(os.path.join(src, "demo.py"), os.path.join(wt, "_demo.py"))
-        rc, out = run(["/venv/bin/python", "_demo.py"], wt, env, 300)
+        os.makedirs(os.path.join(wt, "_seed", "x"))        # same relative layout the demo was written in
+        shutil.copy(os.path.join(src, "demo.py"), os.path.join(wt, "_seed", "x", "demo.py"))
+        rc, out = run(["/venv/bin/python", "_seed/x/demo.py"], wt, env, 300)
         ran.append({"cmd": "demo.py on clean tree (/repo HEAD %s)" % subprocess.check_output(
             ["git", "-C", "/repo", "rev-parse", "--short", "HEAD"], text=True).strip(), "exit": rc})
         ok &= (rc == 0)
@@ -48,7 +49,7 @@ def main():
             last = [l for l in out.splitlines() if "passed" in l or "failed" in l][-1:]
             ran.append({"cmd": "pytest tests (patched)", "exit": rc, "summary": last})
             ok &= (rc == 0)
-            rc, out = run(["/venv/bin/python", "_demo.py"], wt, env, 300)
+            rc, out = run(["/venv/bin/python", "_seed/x/demo.py"], wt, env, 300)
             ran.append({"cmd": "demo.py on patched tree", "exit": rc, "tail": out[-400:]})
             ok &= (rc != 0)
     finally:
